@@ -38,6 +38,9 @@ func (f *Frame) syntacticModObjs(blocks map[*ssa.BasicBlock]bool, st *State) []s
 			if _, isAlloc := v.(*ssa.Alloc); isAlloc {
 				return "", true // fresh object allocated inside: not a pre-existing object
 			}
+			if f.freshResult(v) {
+				return "", true // result of a call inside whose contract says it is freshly allocated
+			}
 			return "", false
 		}
 		return "(pobj " + f.val(v) + ")", true
@@ -54,6 +57,9 @@ func (f *Frame) syntacticModObjs(blocks map[*ssa.BasicBlock]bool, st *State) []s
 		}
 		if inside(v) {
 			if _, isMk := v.(*ssa.MakeSlice); isMk {
+				return "", true
+			}
+			if f.freshResult(v) {
 				return "", true
 			}
 			return "", false
@@ -114,7 +120,21 @@ func (f *Frame) syntacticModObjs(blocks map[*ssa.BasicBlock]bool, st *State) []s
 						}
 					}
 					if !framedNoMods {
-						unknown = true
+						// a framed contract that modifies only (objects reached from) named parameters:
+						// the roots of the actual arguments
+						if roots, ok := f.modifiedArgRoots(cc); ok {
+							for _, a := range roots {
+								if _, isSl := a.Type().Underlying().(*types.Slice); isSl {
+									add(rootSlice(a))
+								} else if _, isP := a.Type().Underlying().(*types.Pointer); isP {
+									add(rootPtr(a))
+								} else {
+									unknown = true
+								}
+							}
+						} else {
+							unknown = true
+						}
 					}
 				}
 			}
@@ -124,6 +144,80 @@ func (f *Frame) syntacticModObjs(blocks map[*ssa.BasicBlock]bool, st *State) []s
 		return []string{"*"}
 	}
 	return objs
+}
+
+// modifiedArgRoots: for a call to a static callee under a framed contract whose modifies clauses
+// are all plain parameter names, the actual arguments bound to those parameters.
+func (f *Frame) modifiedArgRoots(cc *ssa.CallCommon) ([]ssa.Value, bool) {
+	callee := cc.StaticCallee()
+	if callee == nil || cc.IsInvoke() {
+		return nil, false
+	}
+	fc := f.eng.contractFor(callee)
+	if fc == nil || fc.Inline || fc.NoFrame || fc.WritesAll || len(fc.Modifies) == 0 {
+		return nil, false
+	}
+	var out []ssa.Value
+	for _, m := range fc.Modifies {
+		id, ok := m.E.(*EIdent)
+		if !ok {
+			return nil, false
+		}
+		found := false
+		for i, p := range callee.Params {
+			if p.Name() == id.Name && i < len(cc.Args) {
+				out = append(out, cc.Args[i])
+				found = true
+			}
+		}
+		if !found {
+			return nil, false
+		}
+	}
+	if !fc.SpecOnly && !fc.Trusted {
+		f.top.usedContracts[FuncName(callee)] = true
+	}
+	return out, true
+}
+
+// freshResult: v is the result of a call to a function whose contract lists that result as fresh.
+func (f *Frame) freshResult(v ssa.Value) bool {
+	idx := 0
+	var call *ssa.Call
+	switch x := v.(type) {
+	case *ssa.Call:
+		call = x
+	case *ssa.Extract:
+		c, ok := x.Tuple.(*ssa.Call)
+		if !ok {
+			return false
+		}
+		call, idx = c, x.Index
+	default:
+		return false
+	}
+	callee := call.Common().StaticCallee()
+	if callee == nil || call.Common().IsInvoke() {
+		return false
+	}
+	fc := f.eng.contractFor(callee)
+	if fc == nil || fc.Inline {
+		return false
+	}
+	res := callee.Signature.Results()
+	names := map[string]bool{fmt.Sprintf("ret%d", idx): true}
+	if res.Len() == 1 {
+		names["ret"] = true
+	}
+	if idx < res.Len() && res.At(idx).Name() != "" {
+		names[res.At(idx).Name()] = true
+	}
+	for _, c := range fc.Fresh {
+		if id, ok := c.E.(*EIdent); ok && names[id.Name] {
+			return true
+		}
+	}
+	return false
 }
 
 func (f *Frame) execInstr(in ssa.Instruction, reach string, st *State) {
@@ -816,6 +910,9 @@ func (e *Engine) globalInfo(g *ssa.Global) *globalInfo {
 							gi.initNonNil = true
 						}
 					}
+				case *ssa.MakeInterface:
+					// var G Iface = concreteValue: a boxed value is never the nil interface
+					gi.initNonNil = true
 				case *ssa.Convert:
 					if c, ok := v.X.(*ssa.Const); ok && isString(v.Type()) && isString(c.Type()) {
 						gi.initConst = ssa.NewConst(c.Value, v.Type())
